@@ -122,6 +122,7 @@ type fileLike interface {
 	io.WriterAt
 	io.Seeker
 	io.Closer
+	io.StringWriter
 	Truncate(int64) error
 }
 
@@ -137,6 +138,9 @@ func FileOp(h fileLike, t []string) string {
 		return fmt.Sprintf("bytes=%s err:%s", corr.Hex(b[:n]), FileErrClass(err))
 	case "write":
 		n, err := h.Write(corr.UnHex(t[2]))
+		return fmt.Sprintf("n=%d err:%s", n, FileErrClass(err))
+	case "writestring":
+		n, err := h.WriteString(string(corr.UnHex(t[2])))
 		return fmt.Sprintf("n=%d err:%s", n, FileErrClass(err))
 	case "writeat":
 		n, err := h.WriteAt(corr.UnHex(t[2]), atoi64(t[3]))
@@ -250,7 +254,7 @@ func (f *Flat) Step(t []string) string {
 			f.AcrossEOF = true
 		}
 		return fmt.Sprintf("bytes=%s err:%s", corr.Hex(r), e)
-	case "write", "writeat":
+	case "write", "writeat", "writestring":
 		b := corr.UnHex(t[2])
 		if t[0] == "writeat" && atoi64(t[3]) < 0 {
 			return "n=0 err:inval"
@@ -269,7 +273,7 @@ func (f *Flat) Step(t []string) string {
 			}
 		}
 		f.writeAt(off, b)
-		if t[0] == "write" {
+		if t[0] == "write" || t[0] == "writestring" {
 			h.pos += int64(len(b))
 		}
 		return fmt.Sprintf("n=%d err:-", len(b))
@@ -421,7 +425,7 @@ func c02Random(r *corr.Rand, tier string) []corr.Case {
 			var l string
 			switch k := rr.Intn(100); {
 			case k < 22:
-				l = fmt.Sprintf("write %d %s", h, corr.Hex(payload(rr, rr.Intn(6))))
+				l = fmt.Sprintf("%s %d %s", corr.Pick(rr, []string{"write", "write", "writestring"}), h, corr.Hex(payload(rr, rr.Intn(6))))
 			case k < 38:
 				l = fmt.Sprintf("writeat %d %s %d", h, corr.Hex(payload(rr, rr.Intn(6))), offNear(rr, L))
 			case k < 52:
